@@ -62,7 +62,7 @@ def outcome(kind, val, excs):
 def check(tier, reps=None):
     """Returns dict(real_runs, model_schedules, configs, mismatches[list])."""
     reps = reps or (3 if tier == "quick" else 12)
-    res = {"configs": 0, "real_runs": 0, "model_schedules": 0, "mismatches": []}
+    res = {"configs": 0, "real_runs": 0, "model_schedules": 0, "mismatches": closed_pool_check()}
     for n, w, raising in task_sets(tier):
         res["configs"] += 1
         # model: all schedules (free switch points only: these tasks contain no monitored code)
@@ -101,6 +101,32 @@ def check(tier, reps=None):
             if tuple(sorted(ran)) not in model_ran:
                 res["mismatches"].append("real pool executed tasks %r, model %r for n=%d w=%d raising=%r" % (sorted(ran), sorted(model_ran), n, w, raising))
     return res
+
+
+def closed_pool_check():
+    """Both pools refuse map() after close()."""
+    out = []
+    for name, factory in (("real", REAL_POOL), ("model", sched.ModelPool)):
+        p = factory(2)
+        p.close()
+        try:
+            if name == "model":
+                s, o = sched.execute(lambda: p.map(abs, [1, 2]))
+                if o[0] == "exc":
+                    raise o[1]
+            else:
+                p.map(abs, [1, 2])
+            out.append("%s pool accepted map() after close()" % name)
+        except ValueError:
+            pass
+        except Exception as e:  # noqa
+            out.append("%s pool raised %r after close()" % (name, e))
+        finally:
+            try:
+                p.terminate()
+            except Exception:
+                pass
+    return out
 
 
 def check_in_child(tier):
